@@ -805,21 +805,32 @@ func c21ExcType(id string) string {
 	return id
 }
 
+// c21ExcKey classifies a wrong exception by what went wrong, not by the
+// exceptions involved.
 func c21ExcKey(where, got string, want *c21Exc) string {
-	w := "none"
-	if want != nil {
-		ts := map[string]bool{}
-		for _, id := range want.ids {
-			ts[c21ExcType(id)] = true
-		}
-		var l []string
-		for t := range ts {
-			l = append(l, t)
-		}
-		sort.Strings(l)
-		w = strings.Join(l, "+")
+	isCleanup := func(id string) bool {
+		t := c21ExcType(id)
+		return t == "defer-failure" || t == "restore-z"
 	}
-	return fmt.Sprintf("%s-exception:got-%s-want-%s", where, c21ExcType(got), w)
+	switch {
+	case want == nil:
+		if isCleanup(got) {
+			// e.g. a cleanup exception of a block left by break/continue/return,
+			// or of an inner block whose exception was caught
+			return "exception:spurious-cleanup-exception"
+		}
+		return "exception:spurious-" + c21ExcType(got)
+	case got == "":
+		if isCleanup(want.ids[0]) {
+			return "exception:cleanup-exception-not-reported"
+		}
+		return "exception:body-exception-lost"
+	case isCleanup(got) && !isCleanup(want.ids[0]):
+		return "exception:body-exception-replaced-by-cleanup-exception"
+	case got == "exception-with-nil-reason":
+		return "exception:nil-reason"
+	}
+	return "exception:wrong-exception"
 }
 
 // c21Class describes which behaviours a case exercised.
